@@ -51,15 +51,19 @@ Section Cas.
     | e :: es' => if keqb (e_key e) k then es' else e :: remove es' k
     end.
 
-  (* insert keeping the list sorted by kltb; replaces an existing entry in place *)
-  Fixpoint insert (es : list entry) (n : entry) : list entry :=
+  (* insert: replaces an existing entry in place, otherwise inserts before the first greater key *)
+  Fixpoint replace (es : list entry) (n : entry) : list entry :=
+    match es with
+    | [] => []
+    | e :: es' => if keqb (e_key e) (e_key n) then n :: es' else e :: replace es' n
+    end.
+  Fixpoint sinsert (es : list entry) (n : entry) : list entry :=
     match es with
     | [] => [n]
-    | e :: es' =>
-        if keqb (e_key e) (e_key n) then n :: es'
-        else if kltb (e_key n) (e_key e) then n :: e :: es'
-        else e :: insert es' n
+    | e :: es' => if kltb (e_key n) (e_key e) then n :: e :: es' else e :: sinsert es' n
     end.
+  Definition insert (es : list entry) (n : entry) : list entry :=
+    match lookup es (e_key n) with Some _ => replace es n | None => sinsert es n end.
 
   Inductive req :=
   | RGet (k : K)
@@ -171,6 +175,72 @@ Section Cas.
     | RListed es => Forall (entry_in H) es
     | _ => True
     end.
+
+  (* ---------------------------------------------------------------- keys stay unique *)
+  Definition keys (s : store) : list K := map e_key (st_ents s).
+
+  Lemma lookup_None_notin es k : lookup es k = None -> ~ In k (map e_key es).
+  Proof.
+    induction es as [|a es IH]; simpl; auto.
+    destruct (keqb (e_key a) k) eqn:E; [discriminate|].
+    intros X [Y|Y]; [|apply IH; auto]. apply keqb_spec in Y. congruence.
+  Qed.
+  Lemma keys_replace es n : lookup es (e_key n) <> None -> map e_key (replace es n) = map e_key es.
+  Proof.
+    induction es as [|a es IH]; simpl; auto.
+    destruct (keqb (e_key a) (e_key n)) eqn:E; simpl.
+    - intros _. apply keqb_spec in E. congruence.
+    - intros X. rewrite IH; auto.
+  Qed.
+  Lemma keys_sinsert_in es n k : In k (map e_key (sinsert es n)) -> k = e_key n \/ In k (map e_key es).
+  Proof.
+    induction es as [|a es IH]; simpl.
+    - intros [X|[]]; auto.
+    - destruct (kltb (e_key n) (e_key a)); simpl.
+      + intros [X|[X|X]]; auto.
+      + intros [X|X]; auto. destruct (IH X); auto.
+  Qed.
+  Lemma NoDup_sinsert es n : ~ In (e_key n) (map e_key es) -> NoDup (map e_key es) -> NoDup (map e_key (sinsert es n)).
+  Proof.
+    induction es as [|a es IH]; simpl; intros NI ND.
+    - constructor; auto.
+    - destruct (kltb (e_key n) (e_key a)); simpl.
+      + constructor; auto.
+      + inversion ND; subst. constructor.
+        * intros X. apply keys_sinsert_in in X. destruct X as [X|X]; auto.
+        * apply IH; auto.
+  Qed.
+  Lemma keys_remove_in es k k' : In k' (map e_key (remove es k)) -> In k' (map e_key es).
+  Proof.
+    induction es as [|a es IH]; simpl; auto.
+    destruct (keqb (e_key a) k); simpl; auto. intros [X|X]; auto.
+  Qed.
+  Lemma NoDup_remove es k : NoDup (map e_key es) -> NoDup (map e_key (remove es k)).
+  Proof.
+    induction es as [|a es IH]; simpl; auto. intros ND. inversion ND; subst.
+    destruct (keqb (e_key a) k); simpl; auto. constructor; auto.
+    intros X. apply keys_remove_in in X. auto.
+  Qed.
+
+  Lemma exec_keys_nodup s rq : NoDup (keys s) -> NoDup (keys (fst (exec s rq))).
+  Proof.
+    unfold keys. intros ND. destruct rq as [k | l | k v | k v rev | k rev]; simpl; auto.
+    - destruct (lookup (st_ents s) k) eqn:E; simpl; auto.
+      unfold insert; simpl. rewrite E. apply NoDup_sinsert; auto. simpl. apply lookup_None_notin; auto.
+    - destruct (lookup (st_ents s) k) as [e0|] eqn:E; simpl; auto.
+      destruct (N.eqb (e_rev e0) rev); simpl; auto.
+      unfold insert; simpl. rewrite E. rewrite keys_replace; auto. simpl. congruence.
+    - destruct (lookup (st_ents s) k) as [e0|] eqn:E; simpl; auto.
+      destruct (N.eqb (e_rev e0) rev); simpl; auto. apply NoDup_remove; auto.
+  Qed.
+
+  Lemma NoDup_keys_inj es e1 e2 : NoDup (map e_key es) -> In e1 es -> In e2 es -> e_key e1 = e_key e2 -> e1 = e2.
+  Proof.
+    induction es as [|a es IH]; simpl; [tauto|]. intros ND H1 H2 EK. inversion ND; subst.
+    destruct H1 as [->|H1], H2 as [->|H2]; auto.
+    - exfalso. apply H3. rewrite EK. apply in_map; auto.
+    - exfalso. apply H3. rewrite <- EK. apply in_map; auto.
+  Qed.
 
   Section Safety.
     (* allowed transformations, per key, and an invariant of (key, value) pairs they maintain *)
@@ -285,15 +355,24 @@ Section Cas.
       - intros X; destruct (IH X); auto.
     Qed.
 
-    Lemma In_insert es n e : In e (insert es n) -> e = n \/ In e es.
+    Lemma In_replace es n e : In e (replace es n) -> e = n \/ In e es.
+    Proof.
+      induction es as [|a es IH]; simpl; auto.
+      destruct (keqb (e_key a) (e_key n)); simpl.
+      - intros [X|X]; auto.
+      - intros [X|X]; auto. destruct (IH X); auto.
+    Qed.
+    Lemma In_sinsert es n e : In e (sinsert es n) -> e = n \/ In e es.
     Proof.
       induction es as [|a es IH]; simpl.
       - intros [X|[]]; auto.
-      - destruct (keqb (e_key a) (e_key n)).
-        + simpl; intros [X|X]; auto.
-        + destruct (kltb (e_key n) (e_key a)); simpl.
-          * intros [X|[X|X]]; auto.
-          * intros [X|X]; auto. destruct (IH X); auto.
+      - destruct (kltb (e_key n) (e_key a)); simpl.
+        + intros [X|[X|X]]; auto.
+        + intros [X|X]; auto. destruct (IH X); auto.
+    Qed.
+    Lemma In_insert es n e : In e (insert es n) -> e = n \/ In e es.
+    Proof.
+      unfold insert. destruct (lookup es (e_key n)); [apply In_replace | apply In_sinsert].
     Qed.
 
     Lemma In_remove es k e : In e (remove es k) -> In e es.
@@ -466,6 +545,23 @@ Section Cas.
       intros OK NE. destruct (safe_system_invariant evs OK) as (H' & E & (SH & HO & F)).
       exists H'. split; auto. split; auto. split; auto.
       apply nth_error_In in NE. rewrite Forall_forall in F. apply (F _ NE).
+    Qed.
+
+    (* keys of the store stay pairwise distinct in every run of any programs *)
+    Lemma sys_step_keys y ev : NoDup (keys (sy_store y)) -> NoDup (keys (sy_store (sys_step y ev))).
+    Proof.
+      intros ND. unfold sys_step.
+      destruct (nth_error (sy_clients y) (ev_client ev)) as [[p|]|]; auto.
+      destruct p as [r | rq k]; simpl; auto.
+      pose proof (@exec_keys_nodup (sy_store y) rq ND) as X.
+      destruct (ev_fault ev); simpl; auto.
+      - destruct (exec (sy_store y) rq); simpl in *; auto.
+      - destruct (is_cond_write rq); simpl; auto. destruct (exec (sy_store y) rq); simpl in *; auto.
+      - destruct (exec (sy_store y) rq); simpl in *; auto.
+    Qed.
+    Lemma sys_run_keys y evs : NoDup (keys (sy_store y)) -> NoDup (keys (sy_store (sys_run y evs))).
+    Proof.
+      revert y; induction evs as [|ev evs IH]; intros y ND; simpl; auto. apply IH. apply sys_step_keys; auto.
     Qed.
 
     (* every step of a safe system changes the store by at most one allowed transformation *)
